@@ -277,4 +277,427 @@ theorem oHdrLoop_ok (h : OffHeader) (mode : Nat) (todo acc : VMap) (rest : Bytes
       List.length_cons, List.length_nil, gslot] at this ⊢
     exact this
 
+theorem payload_pos' (mode : Nat) (kv : Nat × List Nat) (hk : GroupOk kv) : 0 < (payload mode kv.2).length := by
+  obtain ⟨hl1, hl2⟩ := hk.len
+  rw [payload_eq]
+  split
+  · rw [List.length_append, leBytes_length]; omega
+  · split
+    · rw [flatMap_leBytes2_length]; omega
+    · rw [packFrom_length]; omega
+
+theorem offsetsFrom_length (off : Nat) (pls : List Bytes) : (offsetsFrom off pls).length = 4 * pls.length := by
+  induction pls generalizing off with
+  | nil => rfl
+  | cons p r ih => simp only [offsetsFrom, List.length_append, leBytes_length, ih, List.length_cons]; omega
+
+/-- `readOffsets` over what the reference encoder wrote (no run containers). -/
+theorem oOffLoop_ok (d : Bytes) (mode : Nat) (todo done : VMap) (off : Nat) (rest : Bytes)
+    (hg : ∀ kv ∈ todo, GroupOk kv) (hu : ∀ kv ∈ todo, useRun mode kv.2 = false)
+    (hdrop : d.drop off = (todo.map (fun kv => payload mode kv.2)).flatten)
+    (hoff : off ≤ d.length) (hd : d.length < 2 ^ 32) :
+    oOffLoop d todo.length (offsetsFrom off (todo.map (fun kv => payload mode kv.2)) ++ rest)
+        (done.map (gdone mode)).reverse (todo.map (gslot mode))
+      = .ok ((done ++ todo).map (gdone mode)) := by
+  induction todo generalizing done off with
+  | nil => simp [oOffLoop]
+  | cons kv t ih =>
+    have hk := hg kv (by simp)
+    have hpl := payload_pos' mode kv hk
+    have hdrop' : d.drop off = payload mode kv.2 ++ (t.map (fun kv => payload mode kv.2)).flatten := by
+      rw [hdrop]; simp
+    have hl : (d.drop off).length = (payload mode kv.2).length + ((t.map (fun kv => payload mode kv.2)).flatten).length := by
+      rw [hdrop']; simp
+    rw [List.length_drop] at hl
+    simp only [List.length_cons, oOffLoop, List.map_cons, offsetsFrom, List.append_assoc]
+    generalize hB : leBytes 4 off ++ (offsetsFrom (off + (payload mode kv.2).length) (t.map (fun kv => payload mode kv.2)) ++ rest) = buf
+    have d0 : buf.drop 0 = leBytes 4 off ++ (offsetsFrom (off + (payload mode kv.2).length) (t.map (fun kv => payload mode kv.2)) ++ rest) := by
+      rw [← hB]; rfl
+    have d4 : buf.drop 4 = offsetsFrom (off + (payload mode kv.2).length) (t.map (fun kv => payload mode kv.2)) ++ rest := by
+      rw [← hB]; exact List.drop_left' (leBytes_length 4 _)
+    have hlen : 4 ≤ buf.length := by rw [← hB]; simp [leBytes_length]
+    rw [if_neg (by omega)]
+    rw [rd_of_drop _ buf _ 0 4 off d0 (by omega) (by show off < 4294967296; omega)]
+    simp only [Res.ok_bind]
+    rw [if_neg (by omega)]
+    simp only [gslot]
+    rw [oOffAttach_ok d _ mode kv hk off (hu kv (by simp)) hdrop' hoff]
+    simp only [Res.ok_bind]
+    rw [sub_tail _ buf 4 hlen, d4]
+    simp only [Res.ok_bind]
+    have hdrop2 : d.drop (off + (payload mode kv.2).length) = (t.map (fun kv => payload mode kv.2)).flatten := by
+      have := congrArg (List.drop (payload mode kv.2).length) hdrop'
+      rw [List.drop_drop] at this
+      rw [this]; exact List.drop_left' rfl
+    cases t with
+    | nil =>
+      simp only [List.map_nil, List.length_nil, oOffLoop, Res.pure_eq, Slot.attach, List.reverse_reverse]
+      simp [gdone]
+    | cons kv2 t2 =>
+      simp only [List.map_cons]
+      have := ih (done ++ [kv]) (off + (payload mode kv.2).length) (fun x hx => hg x (by simp [hx]))
+        (fun x hx => hu x (by simp [hx])) hdrop2 (by omega)
+      simp only [List.map_append, List.map_cons, List.map_nil, List.reverse_append, List.reverse_cons,
+        List.reverse_nil, List.nil_append, List.cons_append, List.length_cons, gslot, gdone,
+        List.append_assoc] at this
+      simp only [Slot.attach, List.length_cons, gslot]
+      rw [this]
+      simp [gdone]
+
+/-- `readWithRuns` over what the reference encoder wrote. -/
+theorem oRunLoop_ok (d : Bytes) (mode : Nat) (todo done : VMap) (pos : Nat)
+    (hg : ∀ kv ∈ todo, GroupOk kv)
+    (hdrop : d.drop pos = (todo.map (fun kv => payload mode kv.2)).flatten)
+    (hpos : pos ≤ d.length) :
+    oRunLoop d todo.length (done.map (gdone mode)).reverse (todo.map (gslot mode)) pos
+      = .ok ((done ++ todo).map (gdone mode)) := by
+  induction todo generalizing done pos with
+  | nil => simp [oRunLoop]
+  | cons kv t ih =>
+    have hk := hg kv (by simp)
+    have hdrop' : d.drop pos = payload mode kv.2 ++ (t.map (fun kv => payload mode kv.2)).flatten := by
+      rw [hdrop]; simp
+    have hl : (d.drop pos).length = (payload mode kv.2).length + ((t.map (fun kv => payload mode kv.2)).flatten).length := by
+      rw [hdrop']; simp
+    rw [List.length_drop] at hl
+    simp only [List.length_cons, oRunLoop, List.map_cons]
+    simp only [gslot]
+    rw [oRunAttach_ok d _ mode kv hk pos hdrop' hpos]
+    simp only [Res.ok_bind]
+    have hdrop2 : d.drop (pos + (payload mode kv.2).length) = (t.map (fun kv => payload mode kv.2)).flatten := by
+      have := congrArg (List.drop (payload mode kv.2).length) hdrop'
+      rw [List.drop_drop] at this
+      rw [this]; exact List.drop_left' rfl
+    cases t with
+    | nil =>
+      simp only [List.map_nil, List.length_nil, oRunLoop, Res.pure_eq, Slot.attach, List.reverse_reverse]
+      simp [gdone]
+    | cons kv2 t2 =>
+      simp only [List.map_cons]
+      have := ih (done ++ [kv]) (pos + (payload mode kv.2).length) (fun x hx => hg x (by simp [hx])) hdrop2 (by omega)
+      simp only [List.map_append, List.map_cons, List.map_nil, List.reverse_append, List.reverse_cons,
+        List.reverse_nil, List.nil_append, List.cons_append, List.length_cons, gslot, gdone,
+        List.append_assoc] at this
+      simp only [Slot.attach, List.length_cons, gslot]
+      rw [this]
+      simp [gdone]
+
+theorem slotsToEntries_gdone (mode : Nat) (g : VMap) : slotsToEntries (g.map (gdone mode)) = g.map (gentry mode) := by
+  induction g with
+  | nil => rfl
+  | cons e t ih => simp [slotsToEntries, gdone, gentry, ih]
+
+theorem groups_length_le (g : VMap) (hg : ∀ kv ∈ g, GroupOk kv) (hk : g.Pairwise (fun a b => a.1 < b.1)) :
+    g.length ≤ 65536 := by
+  have h1 : Asc (g.map (·.1)) := List.Pairwise.map _ (fun a b h => h) hk
+  have h2 : ∀ v ∈ g.map (·.1), v < 65536 := by
+    intro v hv
+    obtain ⟨kv, hkv, rfl⟩ := List.mem_map.mp hv
+    exact (hg kv hkv).key
+  have := asc_length_le _ h1 h2
+  simpa using this
+
+theorem flatten_payload_pos (mode : Nat) (g : VMap) (hg : ∀ kv ∈ g, GroupOk kv) (hn : 0 < g.length) :
+    2 ≤ ((g.map (fun kv => payload mode kv.2)).flatten).length := by
+  cases g with
+  | nil => simp at hn
+  | cons kv t =>
+    have hk := hg kv (by simp)
+    obtain ⟨hl1, _⟩ := hk.len
+    simp only [List.map_cons, List.flatten_cons, List.length_append]
+    have : 2 ≤ (payload mode kv.2).length := by
+      rw [payload_eq]
+      split
+      · rw [List.length_append, leBytes_length]; omega
+      · split
+        · rw [flatMap_leBytes2_length]; omega
+        · rw [packFrom_length]; omega
+    omega
+
+theorem values_gentry (mode : Nat) (g : VMap) (hg : ∀ kv ∈ g, GroupOk kv) :
+    VMap.values (entriesToVMap (g.map (gentry mode))) = VMap.values g := by
+  induction g with
+  | nil => rfl
+  | cons kv t ih =>
+    have hk := hg kv (by simp)
+    simp only [List.map_cons, entriesToVMap, VMap.values, List.flatMap_cons] at ih ⊢
+    rw [ih (fun x hx => hg x (by simp [hx]))]
+    simp only [gentry]
+    rw [ocont_values mode kv.2 hk.asc hk.bound]
+
+/-- No run containers: cookie 12346. -/
+theorem unmarshalOfficial_noRun (mode : Nat) (g : VMap) (hg : ∀ kv ∈ g, GroupOk kv)
+    (hk : g.Pairwise (fun a b => a.1 < b.1))
+    (hu : ∀ kv ∈ g, useRun mode kv.2 = false)
+    (d : Bytes)
+    (hd : d = (leBytes 4 cookieNoRun ++ leBytes 4 g.length) ++ (g.flatMap gdesc
+        ++ (offsetsFrom (8 + 4 * g.length + 4 * g.length) (g.map (fun kv => payload mode kv.2))
+          ++ (g.map (fun kv => payload mode kv.2)).flatten)))
+    (hsize : d.length < 2 ^ 32) :
+    unmarshalOfficial d = .ok (⟨0, g.map (gentry mode), entriesToVMap (g.map (gentry mode)), 0, 0⟩ : Decoded) := by
+  have hn := groups_length_le g hg hk
+  generalize hPL : (g.map (fun kv => payload mode kv.2)).flatten = PL at hd
+  have hH : (leBytes 4 cookieNoRun ++ leBytes 4 g.length).length = 8 := by simp [leBytes_length]
+  have hlen : d.length = 8 + 4 * g.length + 4 * g.length + PL.length := by
+    rw [hd]; simp only [List.length_append, hH, flatMap_gdesc_length, offsetsFrom_length, List.length_map]; omega
+  have hplpos : 0 < g.length → 2 ≤ PL.length := fun h => by rw [← hPL]; exact flatten_payload_pos mode g hg h
+  have d0 : d.drop 0 = leBytes 4 cookieNoRun ++ (leBytes 4 g.length ++ (g.flatMap gdesc
+        ++ (offsetsFrom (8 + 4 * g.length + 4 * g.length) (g.map (fun kv => payload mode kv.2)) ++ PL))) := by
+    rw [hd]; simp
+  have d4 : d.drop 4 = leBytes 4 g.length ++ (g.flatMap gdesc
+        ++ (offsetsFrom (8 + 4 * g.length + 4 * g.length) (g.map (fun kv => payload mode kv.2)) ++ PL)) := by
+    have := congrArg (List.drop 4) d0
+    rw [List.drop_drop] at this
+    rw [this]; exact List.drop_left' (leBytes_length 4 _)
+  have d8 : d.drop 8 = g.flatMap gdesc
+        ++ (offsetsFrom (8 + 4 * g.length + 4 * g.length) (g.map (fun kv => payload mode kv.2)) ++ PL) := by
+    have := congrArg (List.drop 4) d4
+    rw [List.drop_drop] at this
+    rw [this]; exact List.drop_left' (leBytes_length 4 _)
+  have d8' : d.drop (8 + 4 * g.length) =
+      offsetsFrom (8 + 4 * g.length + 4 * g.length) (g.map (fun kv => payload mode kv.2)) ++ PL := by
+    have := congrArg (List.drop (4 * g.length)) d8
+    rw [List.drop_drop] at this
+    rw [this]; exact List.drop_left' (flatMap_gdesc_length g)
+  have d8'' : d.drop (8 + 4 * g.length + 4 * g.length) = PL := by
+    have := congrArg (List.drop (4 * g.length)) d8'
+    rw [List.drop_drop] at this
+    rw [this]; exact List.drop_left' (by rw [offsetsFrom_length, List.length_map])
+  -- the header
+  have hhdr : readOfficialHeader d = .ok (⟨g.length, false, [], 8, 8 + 4 * g.length⟩ : OffHeader) := by
+    unfold readOfficialHeader
+    rw [if_neg (by omega)]
+    rw [rd_of_drop _ d _ 0 4 cookieNoRun d0 (by omega) (by decide)]
+    simp only [Res.ok_bind, ↓reduceIte]
+    rw [rd_of_drop _ d _ 4 4 g.length d4 (by omega) (by show g.length < 4294967296; omega)]
+    simp only [Res.ok_bind, Res.pure_eq]
+    rw [if_neg (by omega)]
+    rw [if_neg (by
+      intro h
+      rcases h with h | ⟨h1, h2⟩
+      · omega
+      · have := hplpos h1; omega)]
+  unfold unmarshalOfficial
+  rw [hhdr]
+  simp only [Res.ok_bind]
+  rw [sub_tail _ d 8 (by omega), d8]
+  simp only [Res.ok_bind]
+  have hH0 := oHdrLoop_ok (⟨g.length, false, [], 8, 8 + 4 * g.length⟩ : OffHeader)
+    mode g [] (offsetsFrom (8 + 4 * g.length + 4 * g.length) (g.map (fun kv => payload mode kv.2)) ++ PL) hg
+    (by simpa using hk)
+    (fun j kv hj => by
+      have hmem : kv ∈ g := List.mem_of_getElem? hj
+      have huk := hu kv hmem
+      simp only [officialType, Bool.false_eq_true, ↓reduceIte, Res.pure_eq, ocont, huk, arrayMaxSize]
+      split <;> simp [*, Cont.typ])
+  simp only [List.map_nil, List.reverse_nil, List.nil_append, List.length_nil] at hH0
+  rw [hH0]
+  simp only [Res.ok_bind]
+  unfold oAttachAll
+  simp only [Bool.false_eq_true, ↓reduceIte]
+  rw [sub_tail _ d (8 + 4 * g.length) (by omega), d8']
+  simp only [Res.ok_bind]
+  have hO := oOffLoop_ok d mode g [] (8 + 4 * g.length + 4 * g.length) PL hg hu (by rw [d8'', hPL]) (by omega) hsize
+  simp only [List.map_nil, List.reverse_nil, List.nil_append] at hO
+  rw [hO]
+  simp only [Res.ok_bind, Res.pure_eq, slotsToEntries_gdone]
+
+theorem leVal_append (a b : Bytes) : leVal (a ++ b) = leVal a + 256 ^ a.length * leVal b := by
+  induction a with
+  | nil => simp [leVal]
+  | cons x r ih =>
+    simp only [List.cons_append, leVal, ih, List.length_cons, Nat.pow_succ]
+    rw [Nat.mul_add, ← Nat.mul_assoc, Nat.mul_comm 256 (256 ^ r.length), Nat.add_assoc]
+
+theorem getD_map_useRun (mode : Nat) (g : VMap) (j : Nat) (kv : Nat × List Nat) (h : g[j]? = some kv) :
+    (g.map (fun kv => useRun mode kv.2)).getD j false = useRun mode kv.2 := by
+  simp [List.getD, List.getElem?_map, h]
+
+/-- With run containers: cookie 12347. -/
+theorem unmarshalOfficial_run (mode : Nat) (g : VMap) (hg : ∀ kv ∈ g, GroupOk kv)
+    (hk : g.Pairwise (fun a b => a.1 < b.1)) (hn1 : 1 ≤ g.length)
+    (d : Bytes) (offs : Bytes)
+    (hoffs : offs.length = if g.length ≥ 4 then 4 * g.length else 0)
+    (hd : d = (leBytes 2 cookieRun ++ (leBytes 2 (g.length - 1) ++ packBits (g.map (fun kv => useRun mode kv.2))))
+        ++ (g.flatMap gdesc ++ (offs ++ (g.map (fun kv => payload mode kv.2)).flatten))) :
+    unmarshalOfficial d = .ok (⟨0, g.map (gentry mode), entriesToVMap (g.map (gentry mode)), 0, 0⟩ : Decoded) := by
+  have hn := groups_length_le g hg hk
+  generalize hPL : (g.map (fun kv => payload mode kv.2)).flatten = PL at hd
+  generalize hIR : g.map (fun kv => useRun mode kv.2) = isRun at hd
+  have hirl : isRun.length = g.length := by rw [← hIR]; simp
+  have hbl : (packBits isRun).length = (g.length + 7) / 8 := by rw [packBits_length, hirl]
+  have hplpos : 2 ≤ PL.length := by rw [← hPL]; exact flatten_payload_pos mode g hg (by omega)
+  have hlen : d.length = 4 + (g.length + 7) / 8 + 4 * g.length + offs.length + PL.length := by
+    rw [hd]; simp only [List.length_append, leBytes_length, hbl, flatMap_gdesc_length]; omega
+  have d0 : d.drop 0 = (leBytes 2 cookieRun ++ leBytes 2 (g.length - 1)) ++ (packBits isRun
+      ++ (g.flatMap gdesc ++ (offs ++ PL))) := by
+    rw [hd]; simp
+  have d4 : d.drop 4 = packBits isRun ++ (g.flatMap gdesc ++ (offs ++ PL)) := by
+    have := congrArg (List.drop 4) d0
+    rw [List.drop_drop] at this
+    rw [this]; exact List.drop_left' (by simp [leBytes_length])
+  have dh : d.drop (4 + (g.length + 7) / 8) = g.flatMap gdesc ++ (offs ++ PL) := by
+    have := congrArg (List.drop ((g.length + 7) / 8)) d4
+    rw [List.drop_drop] at this
+    rw [this]; exact List.drop_left' hbl
+  have dp : d.drop (4 + (g.length + 7) / 8 + 4 * g.length) = offs ++ PL := by
+    have := congrArg (List.drop (4 * g.length)) dh
+    rw [List.drop_drop] at this
+    rw [this]; exact List.drop_left' (flatMap_gdesc_length g)
+  have dpl : d.drop (4 + (g.length + 7) / 8 + 4 * g.length + offs.length) = PL := by
+    have := congrArg (List.drop offs.length) dp
+    rw [List.drop_drop] at this
+    rw [this]; exact List.drop_left' rfl
+  -- the cookie
+  have hcookie : rd "ohdr.cookie" d 0 4 = .ok (cookieRun + 65536 * (g.length - 1)) := by
+    unfold rd
+    have := sub_of_drop "ohdr.cookie" d (leBytes 2 cookieRun ++ leBytes 2 (g.length - 1)) _ 0 d0 (by omega)
+    simp only [List.length_append, leBytes_length] at this
+    rw [this]
+    simp only [Res.ok_bind, Res.pure_eq]
+    rw [leVal_append, leVal_leBytes_lt 2 cookieRun (by decide), leVal_leBytes_lt 2 (g.length - 1) (by show g.length - 1 < 65536; omega),
+      leBytes_length]
+  have hhdr : readOfficialHeader d = .ok (⟨g.length, true, packBits isRun, 4 + (g.length + 7) / 8,
+      4 + (g.length + 7) / 8 + 4 * g.length⟩ : OffHeader) := by
+    unfold readOfficialHeader
+    rw [if_neg (by omega), hcookie]
+    simp only [Res.ok_bind]
+    have c1 : cookieRun + 65536 * (g.length - 1) ≠ cookieNoRun := by simp only [cookieRun, cookieNoRun]; omega
+    have c2 : (cookieRun + 65536 * (g.length - 1)) % 65536 = cookieRun := by simp only [cookieRun]; omega
+    have c3 : (cookieRun + 65536 * (g.length - 1)) / 65536 % 65536 + 1 = g.length := by simp only [cookieRun]; omega
+    rw [if_neg c1, if_pos c2, c3]
+    rw [if_neg (by omega)]
+    have := sub_of_drop "ohdr.isRun" d (packBits isRun) _ 4 d4 (by omega)
+    rw [hbl] at this
+    rw [this]
+    simp only [Res.ok_bind, Res.pure_eq]
+    rw [if_neg (by omega)]
+    rw [if_neg (by
+      intro h
+      rcases h with h | ⟨_, h2⟩ <;> omega)]
+  unfold unmarshalOfficial
+  rw [hhdr]
+  simp only [Res.ok_bind]
+  rw [sub_tail _ d (4 + (g.length + 7) / 8) (by omega), dh]
+  simp only [Res.ok_bind]
+  have hH0 := oHdrLoop_ok (⟨g.length, true, packBits isRun, 4 + (g.length + 7) / 8,
+      4 + (g.length + 7) / 8 + 4 * g.length⟩ : OffHeader) mode g [] (offs ++ PL) hg (by simpa using hk)
+    (fun j kv hj => by
+      have hjl : j < isRun.length := by
+        rw [hirl]
+        exact (List.getElem?_eq_some_iff.mp hj).1
+      obtain ⟨B, hB, hbit⟩ := packBits_bit isRun j hjl
+      have hgd : isRun.getD j false = useRun mode kv.2 := by rw [← hIR]; exact getD_map_useRun mode g j kv hj
+      simp only [officialType, ↓reduceIte, List.length_nil, Nat.zero_add]
+      rw [hB]
+      simp only [Res.ok_bind, Res.pure_eq]
+      unfold ocont
+      by_cases hu : useRun mode kv.2 = true
+      · have hc : B >>> (j % 8) % 2 = 1 := by rw [hbit, hgd]; exact hu
+        rw [if_pos hc]
+        simp [hu, Cont.typ]
+      · have hu' : useRun mode kv.2 = false := by simpa using hu
+        have hc : ¬ (B >>> (j % 8) % 2 = 1) := by rw [hbit, hgd, hu']; simp
+        rw [if_neg hc]
+        simp only [hu', Bool.false_eq_true, ↓reduceIte, arrayMaxSize]
+        split <;> simp [*, Cont.typ])
+  simp only [List.map_nil, List.reverse_nil, List.nil_append, List.length_nil] at hH0
+  rw [hH0]
+  simp only [Res.ok_bind]
+  unfold oAttachAll
+  simp only [↓reduceIte]
+  rw [if_neg (by omega)]
+  have hstart : (if g.length ≥ noOffsetThreshold then 4 + (g.length + 7) / 8 + 4 * g.length + g.length * 4
+      else 4 + (g.length + 7) / 8 + 4 * g.length) = 4 + (g.length + 7) / 8 + 4 * g.length + offs.length := by
+    by_cases h4 : g.length ≥ 4
+    · rw [if_pos h4] at hoffs
+      rw [if_pos (by simpa [noOffsetThreshold] using h4)]; omega
+    · rw [if_neg h4] at hoffs
+      rw [if_neg (by simpa [noOffsetThreshold] using h4)]; omega
+  rw [hstart]
+  have hR := oRunLoop_ok d mode g [] (4 + (g.length + 7) / 8 + 4 * g.length + offs.length) hg
+    (by rw [dpl, hPL]) (by omega)
+  simp only [List.map_nil, List.reverse_nil, List.nil_append] at hR
+  rw [hR]
+  simp only [Res.ok_bind, Res.pure_eq, slotsToEntries_gdone]
+
+theorem encodeOfficial_noRun (mode : Nat) (g : VMap)
+    (h : (g.map (fun kv => useRun mode kv.2)).any id = false) :
+    encodeOfficial mode g = (leBytes 4 cookieNoRun ++ leBytes 4 g.length) ++ (g.flatMap gdesc
+        ++ (offsetsFrom (8 + 4 * g.length + 4 * g.length) (g.map (fun kv => payload mode kv.2))
+          ++ (g.map (fun kv => payload mode kv.2)).flatten)) := by
+  unfold encodeOfficial
+  simp only [h, Bool.false_eq_true, ↓reduceIte, Bool.not_false, Bool.true_or, List.length_append,
+    leBytes_length, List.append_assoc]
+  have : (g.flatMap (fun kv => leBytes 2 kv.1 ++ leBytes 2 (kv.2.length - 1))) = g.flatMap gdesc := rfl
+  rw [this, flatMap_gdesc_length]
+
+theorem encodeOfficial_run (mode : Nat) (g : VMap)
+    (h : (g.map (fun kv => useRun mode kv.2)).any id = true) :
+    ∃ offs : Bytes, (offs.length = if g.length ≥ 4 then 4 * g.length else 0) ∧
+      encodeOfficial mode g = (leBytes 2 cookieRun ++ (leBytes 2 (g.length - 1) ++ packBits (g.map (fun kv => useRun mode kv.2))))
+        ++ (g.flatMap gdesc ++ (offs ++ (g.map (fun kv => payload mode kv.2)).flatten)) := by
+  unfold encodeOfficial
+  simp only [h, ↓reduceIte, Bool.not_true, Bool.false_or, List.append_assoc]
+  have hd : (g.flatMap (fun kv => leBytes 2 kv.1 ++ leBytes 2 (kv.2.length - 1))) = g.flatMap gdesc := rfl
+  rw [hd]
+  refine ⟨_, ?_, rfl⟩
+  by_cases h4 : g.length ≥ 4
+  · simp only [h4, decide_true, ↓reduceIte]
+    rw [offsetsFrom_length, List.length_map]
+  · simp only [h4, decide_false, Bool.false_eq_true, ↓reduceIte, List.length_nil]
+
+
+theorem leBytes4_split (x : Nat) : leBytes 4 x = leBytes 2 x ++ leBytes 2 (x / 65536) := by
+  simp only [leBytes, List.cons_append, List.nil_append, List.cons.injEq, and_true]
+  refine ⟨trivial, trivial, ?_, ?_⟩ <;> omega
+
+theorem rd_prefix (site : String) (k n : Nat) (rest : Bytes) (hn : n < 256 ^ k) :
+    rd site (leBytes k n ++ rest) 0 k = .ok n :=
+  rd_of_drop site _ rest 0 k n rfl (Nat.zero_le _) hn
+
+/-- `UnmarshalBinary` of what the reference encoder wrote. -/
+theorem unmarshal_encodeOfficial (mode : Nat) (g : VMap) (hg : ∀ kv ∈ g, GroupOk kv)
+    (hk : g.Pairwise (fun a b => a.1 < b.1)) (hsize : (encodeOfficial mode g).length < 2 ^ 32) :
+    unmarshal (encodeOfficial mode g) =
+      .ok ((⟨0, g.map (gentry mode), entriesToVMap (g.map (gentry mode)), 0, 0⟩ : Decoded), encodeOfficial mode g) := by
+  by_cases hany : (g.map (fun kv => useRun mode kv.2)).any id = true
+  · obtain ⟨offs, hoffs, henc⟩ := encodeOfficial_run mode g hany
+    have hn1 : 1 ≤ g.length := by
+      cases g with
+      | nil => simp at hany
+      | cons _ _ => simp
+    have hU := unmarshalOfficial_run mode g hg hk hn1 _ offs hoffs henc
+    have hlen : 8 ≤ (encodeOfficial mode g).length := by
+      rw [henc]
+      have := flatten_payload_pos mode g hg (by omega)
+      simp only [List.length_append, leBytes_length, flatMap_gdesc_length]
+      omega
+    rw [unmarshal_eq _ hlen]
+    have hm : rd "unmarshal.magic" (encodeOfficial mode g) 0 2 = .ok cookieRun := by
+      rw [henc, List.append_assoc]
+      exact rd_prefix _ 2 cookieRun _ (by decide)
+    rw [hm]
+    simp only [Res.ok_bind, cookieRun, magicPilosa, Nat.reduceEqDiff, ↓reduceIte]
+    rw [hU]
+    rfl
+  · have hany' : (g.map (fun kv => useRun mode kv.2)).any id = false := by simpa using hany
+    have henc := encodeOfficial_noRun mode g hany'
+    have hu : ∀ kv ∈ g, useRun mode kv.2 = false := by
+      intro kv hkv
+      have := List.any_eq_false.mp hany' (useRun mode kv.2) (List.mem_map.mpr ⟨kv, hkv, rfl⟩)
+      simpa using this
+    have hU := unmarshalOfficial_noRun mode g hg hk hu _ henc hsize
+    have hlen : 8 ≤ (encodeOfficial mode g).length := by
+      rw [henc]; simp only [List.length_append, leBytes_length]; omega
+    rw [unmarshal_eq _ hlen]
+    have hm : rd "unmarshal.magic" (encodeOfficial mode g) 0 2 = .ok cookieNoRun := by
+      rw [henc, leBytes4_split cookieNoRun]
+      simp only [List.append_assoc]
+      exact rd_prefix _ 2 cookieNoRun _ (by decide)
+    rw [hm]
+    simp only [Res.ok_bind, cookieNoRun, magicPilosa, Nat.reduceEqDiff, ↓reduceIte]
+    rw [hU]
+    rfl
+
 end PV.C04
